@@ -70,6 +70,21 @@ CLAIMED["C16"] = dict(
               "slices.SortFunc, quantified table invariants, obligations discharged by z3/cvc5",
     design="§3 C16")
 
+CLAIMED["C10"] = dict(
+    text="Proof (bit-vector semantics, all int64 values incl. wrap-around) of the exact transfer function of every accumulator in "
+         "pkg/query/aggregation/function.go instantiated at int64: In/Combine/Partial/Val/Reset of SUM, COUNT, MIN, MAX, MEAN (Map and "
+         "Reduce sides, 35 methods), e.g. minReduceFunc.Combine = min despite its sentinel branch and MEAN.Val = the documented "
+         "max(1, sum/count) with division by zero unreachable; plus monoid lemmas (associativity, commutativity, identity = the Reset "
+         "state) for +, max, min. Together: folding Combine over the Partials of any split of the points yields the state — hence the "
+         "Val — of folding In over all points (the induction over the split is the standard monoid-homomorphism argument, stated in "
+         "DESIGN.md, not mechanised).",
+    note=COMMON_NOTE + "Preconditions not proved at call sites (constructors are proto-typed): the zero/min/max fields hold 0 / "
+         "MinInt64 / MaxInt64. Not decided: float64 fields (explicitly excluded by the property), group-by hashing, TOP/BOTTOM-N, "
+         "replica de-duplication and the distributed planner glue (proto-typed), vectorized aggregation.",
+    technique="contract-based deductive verification: VCs from the typed Go AST of the generic code instantiated at int64 (govc), "
+              "QF_BV obligations discharged by z3/cvc5",
+    design="§3 C10")
+
 NOT_APPLICABLE = {
     "C15": "equivalence of two whole query pipelines over generated proto types: translation validation, no function contract states it (DESIGN.md §5)",
     "C17": "whole-cluster equivalence and gRPC/proto-typed transfer code with no type information in this tree (DESIGN.md §5)",
